@@ -141,12 +141,36 @@ def shape_sig(t):
         return ["ur"] + [shape_sig(m) for m in t["m"]]
 
 
+def type_name(t):
+    """The class name the library gives / sees for a node."""
+    k = t["k"]
+    if k == "sc":
+        return SC[t["t"]].__name__
+    if k == "str":
+        return "String"
+    if k == "ref":
+        return "Ref" + type_name(t["to"])
+    return t["n"]
+
+
+def auto_array_name(it, dims):
+    lst, i, parts = "NMOPQRSTUVWXYZABCDEFGHIJKLM", 0, []
+    for d in dims:
+        if d is None:
+            parts.append(lst[i])
+            i = (i + 1) % len(lst)
+        else:
+            parts.append(str(d))
+    return "Arr" + "x".join(parts) + type_name(it)
+
+
 # --------------------------------------------------------------------------
 # type generation
 # --------------------------------------------------------------------------
 class TypeGen:
     def __init__(self, rng, *, max_depth=3, refs=True, strings=True, dyn=True, orders=True,
-                 max_nd=3, max_fields=4, max_dim=3, scalars=None, prefix=None, readonly=0.0, ref_defaults=0.0):
+                 max_nd=3, max_fields=4, max_dim=3, scalars=None, prefix=None, readonly=0.0, ref_defaults=0.0, anon=0.2):
+        self.anon = anon
         self.readonly = readonly
         self.ref_defaults = ref_defaults
         self.rng = rng
@@ -221,6 +245,11 @@ class TypeGen:
         if self.orders and nd > 1 and r.random() < 0.5:
             r.shuffle(order)
         it = self.any(depth - 1)
+        if order == list(range(nd)) and r.random() < self.anon:
+            # the automatically named class `item[shape]` itself, evaluated afresh wherever it is needed (every
+            # evaluation gives a new class object of the same name, which is how such types are written in practice:
+            # `xo.Ref[xo.Float64[:]]` here, `xo.Float64[:](...)` there); only for C order, the name does not tell the order
+            return {"k": "ar", "n": auto_array_name(it, dims), "it": it, "dims": dims, "ord": order, "anon": True}
         return {"k": "ar", "n": self.name("A"), "it": it, "dims": dims, "ord": order}
 
     def compound(self, depth):
@@ -230,7 +259,9 @@ class TypeGen:
         pool = self.__dict__.setdefault("pool", [])
         if pool and self.rng.random() < 0.3:
             return self.rng.choice(pool)
-        t = self.any(max(depth, 1), allow=("st", "ar"))
+        # mostly one level below the holder; sometimes a deeper target (array of arrays, array of references,
+        # struct with array fields) whatever the depth left
+        t = self.any(max(depth, 2 if self.rng.random() < 0.3 else 1), allow=("st", "ar"))
         pool.append(t)
         return t
 
@@ -242,7 +273,7 @@ class TypeGen:
         ms = []
         for _ in range(r.randint(1, 3)):
             m = self.compound(depth - 1)
-            if not any(m is x for x in ms):  # a class is a member of one union at most once
+            if not any(m is x or m["n"] == x["n"] for x in ms):  # a class (name) is a member of one union at most once
                 ms.append(m)
         return {"k": "ur", "n": self.name("U"), "m": ms}
 
@@ -266,6 +297,12 @@ def build(t, cache=None):
     if k == "ref":
         return xo.Ref[build(t["to"], cache)]
     n = t["n"]
+    if k == "ar" and t.get("anon"):
+        it = build(t["it"], cache)
+        sl = tuple(slice(None) if d is None else d for d in t["dims"])
+        cls = it[sl[0] if len(sl) == 1 else sl]
+        assert cls.__name__ == n, (cls.__name__, n)
+        return cls  # never cached: a new class object of the same name at every use
     if n in cache:
         return cache[n]
     if k == "st":
